@@ -442,11 +442,18 @@ func runC05Round(w *core.W, c *c05Round, st *c05Stats, salt uint64) bool {
 	got := make([]c05Resp, total)
 	var wg sync.WaitGroup
 	start := make(chan struct{})
+	var arrived int64
 	for g := 0; g < c.Goroutines; g++ {
 		wg.Add(1)
 		go func(g int) {
 			defer wg.Done()
 			<-start
+			// a spin barrier on top of the channel: the cold wave reaches the router within nanoseconds, not
+			// within the microseconds it takes the scheduler to wake goroutines one by one
+			atomic.AddInt64(&arrived, 1)
+			for atomic.LoadInt64(&arrived) < int64(c.Goroutines) {
+				runtime.Gosched()
+			}
 			for k := 0; k < c.PerG; k++ {
 				i := k*c.Goroutines + g // goroutine g owns every Goroutines-th request; wave k=0 is the cold wave
 				got[i] = c05Serve(cold, reqs[i])
@@ -681,7 +688,7 @@ func runC05(r *core.Run) {
 	defer flamego.SetEnv(orig)
 
 	rounds := r.N(30, 300)
-	gor, per := 4*len(c05Kinds), 28 // the first wave hits every kind while cold from four goroutines at once
+	gor, per := 8*len(c05Kinds), 14 // the first wave hits every kind while cold from eight goroutines at once
 	if r.Thorough() {
 		gor, per = 8*len(c05Kinds), 55
 	}
